@@ -61,11 +61,21 @@ fn parse_args() -> Args {
     Args { cmd, kv }
 }
 
+/// TLC's JSON reader rejects `null`: traces never contain it (a null becomes the string "null")
+fn no_nulls(v: &Value) -> Value {
+    match v {
+        Value::Null => Value::String("null".into()),
+        Value::Array(a) => Value::Array(a.iter().map(no_nulls).collect()),
+        Value::Object(o) => Value::Object(o.iter().map(|(k, x)| (k.clone(), no_nulls(x))).collect()),
+        _ => v.clone(),
+    }
+}
+
 pub fn write_lines(path: &str, lines: &[Value]) {
     let f = std::fs::File::create(path).expect("create");
     let mut w = std::io::BufWriter::new(f);
     for l in lines {
-        serde_json::to_writer(&mut w, l).unwrap();
+        serde_json::to_writer(&mut w, &no_nulls(l)).unwrap();
         w.write_all(b"\n").unwrap();
     }
 }
